@@ -4,6 +4,23 @@
 use crate::build_render::*;
 use crate::common::Rng;
 
+/// (declaration as written, fault name): what `DocumentBuilder::prefix` has to reject.
+const PLANTED_DECLS: &[(&str, &str)] = &[
+    ("xmlns:p=''", "prefixed-undeclaration"),
+    ("xmlns:q=\"\"", "prefixed-undeclaration"),
+    ("xmlns:zr=''", "prefixed-undeclaration"),
+    ("xmlns:xmlns='urn:a'", "reserved-prefix-or-namespace-rebound"),
+    ("xmlns:xmlns=''", "reserved-prefix-or-namespace-rebound"),
+    ("xmlns:xa='http://www.w3.org/XML/1998/namespace'", "reserved-prefix-or-namespace-rebound"),
+    ("xmlns:p=\"http://www.w3.org/XML/1998/namespace\"", "reserved-prefix-or-namespace-rebound"),
+    ("xmlns='http://www.w3.org/XML/1998/namespace'", "reserved-prefix-or-namespace-rebound"),
+    ("xmlns:q='http://www.w3.org/2000/xmlns/'", "reserved-prefix-or-namespace-rebound"),
+    ("xmlns='http://www.w3.org/2000/xmlns/'", "reserved-prefix-or-namespace-rebound"),
+    ("xmlns:xml='http://www.w3.org/2000/xmlns/'", "reserved-prefix-or-namespace-rebound"),
+    ("xmlns:zr='http://www.w3.org/2000/xmlns&#x2F;'", "reserved-prefix-or-namespace-rebound"),
+    ("xmlns:zr='&#104;ttp://www.w3.org/XML/1998/namespace'", "reserved-prefix-or-namespace-rebound"),
+];
+
 impl<'a> R<'a> {
     fn fresh_prefix(&mut self) -> String {
         self.fresh += 1;
@@ -54,19 +71,16 @@ impl<'a> R<'a> {
                 ns = twins[self.rng.below(twins.len())].clone();
             }
         }
-        if self.cfg.xml_alias {
-            if self.rng.chance(1, 2) {
-                let p = self.pick(&["xa", "p", "q", "xmlx"]).to_string();
-                if !decls.iter().any(|d| d.0 == p) {
-                    decls.push((p, XML_NS.to_string()));
-                    self.feat("xml-ns-alias-declared");
-                }
-            }
-            if self.rng.chance(1, 8) {
-                // legal: the prefix xml may be declared, with its own namespace name
-                decls.push(("xml".to_string(), XML_NS.to_string()));
-                self.feat("xmlns-xml-declared");
-            }
+        if self.cfg.xml_alias && self.rng.chance(1, 3) {
+            // legal: the prefix xml may be declared, with its own namespace name
+            decls.push(("xml".to_string(), XML_NS.to_string()));
+            self.feat("xmlns-xml-declared");
+        }
+        if self.cfg.xml_rebind && self.rng.chance(1, 3) && !decls.iter().any(|d| d.0 == "xml") {
+            // against Namespaces in XML 1.0 section 3, accepted by xot (known finding)
+            let u = self.pick(&["urn:zzz", "urn:zzz", ""]).to_string();
+            decls.push(("xml".to_string(), u));
+            self.feat("xml-prefix-rebound");
         }
         let mut attrs: Vec<(String, String, String)> = vec![];
         let mut has_xmlid = false;
@@ -108,6 +122,11 @@ impl<'a> R<'a> {
         // make every name reachable under the final set of declarations
         let mut scope2: Vec<(String, String)> = scope.to_vec();
         scope2.extend(decls.iter().cloned());
+        if resolve(&scope2, "xml") != Some(XML_NS) {
+            // the prefix xml names something else here and no other prefix can name the XML namespace
+            attrs.retain(|a| a.0 != XML_NS);
+            has_xmlid = false;
+        }
         if ns.is_empty() {
             if let Some(u) = resolve(&scope2, "") {
                 if !u.is_empty() {
@@ -161,11 +180,26 @@ impl<'a> R<'a> {
         self.out.push_str(&q);
         let e = self.out.len();
         self.span(path, "ES", 0, s, e);
-        self.tag_points.push(TagPoint { at: e, has_xmlid, depth });
+        // (no xml:id can be added where the prefix xml names something else)
+        let xml_is_xml = resolve(&scope2, "xml") == Some(XML_NS);
+        self.tag_points.push(TagPoint { at: e, has_xmlid: has_xmlid || !xml_is_xml, depth });
         // interleave declarations and attributes, each kind in its own order
         let nd = decls.len();
         let (mut di, mut ai) = (0, 0);
-        while di < decls.len() || ai < attrs.len() {
+        // a declaration the parser has to reject, written in front of item number `plant_at`
+        let mut plant: Option<(&'static str, &'static str)> = if self.cfg.reserved && self.rng.chance(1, 3) { Some(*self.rng.pick(PLANTED_DECLS)) } else { None };
+        let plant_at = self.rng.below(decls.len() + attrs.len() + 1);
+        while di < decls.len() || ai < attrs.len() || plant.is_some() {
+            if let Some((text, fault)) = plant {
+                if di + ai == plant_at || (di >= decls.len() && ai >= attrs.len()) {
+                    self.ws1();
+                    self.out.push_str(text);
+                    self.plant(fault);
+                    self.feat(if fault == "prefixed-undeclaration" { "planted-prefixed-undeclaration" } else { "planted-reserved-declaration" });
+                    plant = None;
+                    continue;
+                }
+            }
             let take_decl = if di >= decls.len() {
                 false
             } else if ai >= attrs.len() {
@@ -206,13 +240,6 @@ impl<'a> R<'a> {
                 self.out.push('=');
                 self.ws0();
                 let is_id = ans == XML_NS && aloc == "id";
-                if is_id && !an.starts_with("xml:") {
-                    self.feat("xml-id-via-alias");
-                    self.alias_ids.push(value.clone());
-                    if self.cfg.xmlid_spaces {
-                        self.feat("xml-id-via-alias-many-spaces");
-                    }
-                }
                 let extra = is_id && (self.cfg.xmlid_spaces || self.rng.chance(1, 3));
                 if extra && self.cfg.xmlid_spaces {
                     self.feat("xml-id-many-spaces");
@@ -291,19 +318,39 @@ impl<'a> R<'a> {
         AElem { ns, local, decls, attrs, kids }
     }
 
+    /// One character of a comment body / PI data: writes a spelling, returns the value's character.
+    /// A line feed is spelled LF, or (profile `comment_pi_cr`) CR / CR LF: the value is normalised.
+    fn comment_pi_char(&mut self, c: char, prev_bare_cr: &mut bool, feat: &'static str) {
+        if c == '\n' {
+            let allow = self.cfg.comment_pi_cr;
+            let w = self.lf(prev_bare_cr, allow);
+            if w != "\n" {
+                self.feat(feat);
+            }
+            self.out.push_str(w);
+        } else {
+            *prev_bare_cr = false;
+            self.out.push(c);
+        }
+    }
+
     fn gen_comment(&mut self, path: &[usize]) -> ANode {
         let n = self.rng.below(6);
         let mut body = String::new();
-        for _ in 0..n {
-            let c = self.content_char();
-            if c == '-' || c == '\r' {
-                continue;
-            }
-            body.push(c);
-        }
         self.out.push_str("<!--");
         let s = self.out.len();
-        self.out.push_str(&body);
+        let mut prev_bare_cr = false;
+        for _ in 0..n {
+            let mut c = self.content_char();
+            if c == '-' {
+                continue;
+            }
+            if c == '\r' || (self.cfg.comment_pi_cr && self.rng.chance(1, 5)) {
+                c = '\n';
+            }
+            self.comment_pi_char(c, &mut prev_bare_cr, "comment-cr");
+            body.push(c);
+        }
         let e = self.out.len();
         self.out.push_str("-->");
         self.span(path, "C", 0, s, e);
@@ -311,33 +358,49 @@ impl<'a> R<'a> {
     }
 
     fn gen_pi(&mut self, path: &[usize]) -> ANode {
-        let target = self.pick(PI_TARGETS).to_string();
+        // the target xml, in any letter case, is reserved: such a PI has to be rejected (the
+        // tokenizer itself refuses `<?xml` + space, so lower-case xml is followed by something else)
+        let bad = self.cfg.reserved && self.rng.chance(1, 6);
+        let target = if bad { self.pick(&["xml", "XML", "xMl", "Xml", "xmL"]).to_string() } else { self.pick(PI_TARGETS).to_string() };
+        if bad {
+            self.plant("pi-target-xml");
+            self.feat("planted-pi-target-xml");
+        }
         self.out.push_str("<?");
         let s = self.out.len();
         self.out.push_str(&target);
         let e = self.out.len();
         self.span(path, "PT", 0, s, e);
         let data = if self.rng.chance(1, 3) {
-            if self.rng.chance(1, 2) {
+            if self.rng.chance(1, 2) && target != "xml" {
                 self.out.push(' ');
             }
             None
         } else {
-            self.ws1();
+            if target == "xml" {
+                let w = self.pick(&["\t", "\n", "\r\n", "\t "]);
+                self.out.push_str(w);
+            } else {
+                self.ws1();
+            }
             let mut d = String::new();
+            let s = self.out.len();
+            let mut prev_bare_cr = false;
             for i in 0..1 + self.rng.below(6) {
-                let c = self.content_char();
-                if c == '\r' || (c == '>' && d.ends_with('?')) || (i == 0 && c.is_whitespace()) || (i == 0 && matches!(c, ' ' | '\t' | '\n')) {
-                    d.push('d');
-                } else {
-                    d.push(c);
+                let mut c = self.content_char();
+                if c == '\r' || (i > 0 && self.cfg.comment_pi_cr && self.rng.chance(1, 5)) {
+                    c = '\n';
                 }
+                if (c == '>' && d.ends_with('?')) || (i == 0 && c.is_whitespace()) {
+                    c = 'd';
+                }
+                self.comment_pi_char(c, &mut prev_bare_cr, "pi-data-cr");
+                d.push(c);
             }
             if d.ends_with('?') {
                 d.push('.');
+                self.out.push('.');
             }
-            let s = self.out.len();
-            self.out.push_str(&d);
             let e = self.out.len();
             self.span(path, "PC", 0, s, e);
             Some(d)
@@ -407,7 +470,7 @@ impl<'a> R<'a> {
             tag_points: self.tag_points,
             close_tags: self.close_tags,
             close_alts: self.close_alts,
-            alias_ids: self.alias_ids,
+            planted: self.planted,
             text_points: self.text_points,
             attr_points: self.attr_points,
             decl_points: self.decl_points,
